@@ -235,8 +235,13 @@ class Slice(NullCell):
             return self.to_cell()
         if self.load_bit():
             from .hashmap.parse import parse_hashmap_aug
-            return parse_hashmap_aug(self.load_ref().begin_parse(), key_length, x_deserializer, y_deserializer)
+            result = parse_hashmap_aug(self.load_ref().begin_parse(), key_length, x_deserializer, y_deserializer)
+            if y_deserializer is not None:
+                y_deserializer(self)  # ahme_root$1 root:^(HashmapAug n X Y) extra:Y
+            return result
         else:
+            if y_deserializer is not None:
+                return {}, [y_deserializer(self)]  # ahme_empty$0 extra:Y
             return {}, [self]  # extra
 
     def preload_dict(self, key_length: int, key_deserializer: typing.Callable = None,
